@@ -380,7 +380,9 @@ Proof.
     destruct (write_control_close st _) as [[s w] r]. exact K. }
   destruct payload as [|a [|b text]].
   + apply Hecho.
-  + apply Hecho.
+  + destruct close_body1_rejected.
+    * pose proof (hpe_keep st msg H) as K. destruct (handle_protocol_error st msg) as [s w]. exact K.
+    * apply Hecho.
   + destruct (negb (is_valid_received_close_code (be16 a b))).
     * pose proof (hpe_keep st msg H) as K. destruct (handle_protocol_error st msg) as [s w]. exact K.
     * destruct (negb (utf8_valid text)).
@@ -550,9 +552,13 @@ Proof.
     + specialize (Hecho c_CloseNoStatusReceived [] ltac:(vm_compute; discriminate) ltac:(vm_compute; reflexivity)).
       destruct (write_control_close _ _) as [[st2 w] r]. destruct Hecho as [J1 [J2 J3]].
       split; [exact J1|]. simpl. auto.
-    + specialize (Hecho c_CloseNoStatusReceived [] ltac:(vm_compute; discriminate) ltac:(vm_compute; reflexivity)).
-      destruct (write_control_close _ _) as [[st2 w] r]. destruct Hecho as [J1 [J2 J3]].
-      split; [exact J1|]. simpl. auto.
+    + destruct close_body1_rejected.
+      * destruct (handle_protocol_error st msg) as [st1 w]. destruct Hperr as [[J1 J2] [f [-> [Hf [Hr Htc]]]]].
+        split; [split; simpl; auto|]. simpl. rewrite Hf. split; [|rewrite Hr; lia].
+        apply close_code_outgoing; simpl; auto; lia.
+      * specialize (Hecho c_CloseNoStatusReceived [] ltac:(vm_compute; discriminate) ltac:(vm_compute; reflexivity)).
+        destruct (write_control_close _ _) as [[st2 w] r]. destruct Hecho as [J1 [J2 J3]].
+        split; [exact J1|]. simpl. auto.
     + inversion Hwf as [|? ? Ha Hwf1]; subst. inversion Hwf1 as [|? ? Hb _]; subst.
       pose proof (be16_bound a b Ha Hb) as Hbd.
       destruct (is_valid_received_close_code (be16 a b)) eqn:V; simpl negb; cbv iota.
